@@ -871,6 +871,37 @@ func c16run(res *c16result, mu *sync.Mutex, dir string, class string) {
 			}
 			e.nRestart++
 			emit("ok")
+		case tk[1] == "crash" && len(tk) == 2:
+			// the server process dies here: the directory is what the calls have made of it, nobody runs
+			// closeDatabase. Simulated by a copy of the database files taken while the server is up (every call
+			// has returned, so there is no transaction in flight); the abandoned server is closed afterwards only
+			// to free its resources, and the directory is put back to the copy.
+			if e.srv == nil {
+				emit("bad-op")
+				continue
+			}
+			snap := map[string][]byte{}
+			for _, f := range e.dbFiles() {
+				b, err := ioutil.ReadFile(filepath.Join(e.dataDir(), f))
+				if err != nil {
+					fail("data-file", "a database file cannot be read while the server is up: "+err.Error())
+				}
+				snap[f] = b
+			}
+			wasTmp := e.tmp
+			e.tmp = false // bookkeeping of stop(): nothing is forgotten
+			e.stop()
+			e.tmp = wasTmp
+			for _, f := range e.dbFiles() {
+				os.Remove(filepath.Join(e.dataDir(), f))
+			}
+			for f, b := range snap {
+				if err := ioutil.WriteFile(filepath.Join(e.dataDir(), f), b, 0600); err != nil {
+					fail("start", "restoring the snapshot: "+err.Error())
+				}
+			}
+			e.kinds["crash"] = true
+			emit("ok")
 		case tk[1] == "stop" && len(tk) == 2:
 			if e.srv == nil {
 				emit("bad-op")
@@ -1357,7 +1388,12 @@ func c16genAll(c *h.Ctx, yield func(*h.Case)) {
 		for j := 0; j < n; j++ {
 			switch {
 			case r.Intn(restartEvery) == 0:
-				op("stop")
+				if r.Intn(4) == 0 {
+					op("crash") // an unclean stop: the process dies, no Close
+					c.Count("op=crash")
+				} else {
+					op("stop")
+				}
 				if r.Intn(3) == 0 {
 					svcs = subset(pool, 1) // a service may be absent for a while
 				}
@@ -1441,6 +1477,33 @@ func c16genAll(c *h.Ctx, yield func(*h.Case)) {
 	// ---- corpus -------------------------------------------------------------------------------
 	recV, blobV := &C16Rec{I: 42, S: "answer", B: []byte{1, 2, 3}}, &C16Blob{B: []byte("other")}
 	rec, blob := valueOf(recV), valueOf(blobV)
+	// unclean stops: the process dies (no Close) after saves of a regular and of a temporary-directory server
+	start("corpus-crash-restart")
+	keysOp(1)
+	op("startk 0 c16a,c16b keep")
+	op("save c16a %s %s", c16hex([]byte("k")), rec)
+	op("savever c16b 7")
+	op("addb c16a %s", c16hex([]byte("x")))
+	op("bput c16a %s %s %s", c16hex([]byte("x")), c16hex([]byte("k")), c16hex([]byte{9}))
+	op("crash")
+	op("ls")
+	op("startk 0 c16a,c16b tmp")
+	op("load c16a %s", c16hex([]byte("k")))
+	op("loadver c16b")
+	op("save c16b %s %s", c16hex([]byte("k")), blob)
+	op("save c16a %s %s", c16hex([]byte("k")), blob)
+	op("crash") // a temporary-directory server that dies deletes nothing
+	op("ls")
+	op("startk 0 c16a,c16b keep")
+	op("addb c16a %s", c16hex([]byte("x")))
+	op("load c16a %s", c16hex([]byte("k")))
+	op("load c16b %s", c16hex([]byte("k")))
+	op("loadver c16b")
+	op("bget c16a %s %s", c16hex([]byte("x")), c16hex([]byte("k")))
+	op("stop")
+	op("ls")
+	yield(cs)
+
 	start("corpus-roundtrip-restart")
 	op("start c16a,c16b")
 	op("load c16a %s", c16hex([]byte("k")))
